@@ -110,6 +110,9 @@ def expected_items(model, file, fnode_or_none, declared=None, fix_name=None, fix
             d, src = res[2], res[1]
             scope = d["scope"]
             group = 0 if src == file else 1
+            if src != file and src in getattr(model, "plugin_files", ()):
+                # defined in a plugin module AND re-exported by a conftest on the path: "conftest" and "plugin" both describe it
+                group = "12"
         else:
             cands = res[2]
             scope = cands[0][1]["scope"]
@@ -216,7 +219,7 @@ def judge_line(ctx, srv, model, f, text, line1, col, klass, info, files, tag, de
     for it in items or []:
         g = exp.get(it["label"], (None,))[0]
         st = it.get("sortText") or ""
-        if g is not None and (not st or st[0] != str(g)):
+        if g is not None and (not st or st[0] not in str(g)):
             ctx.violation({"kind": "sort-group", "label": it["label"], "tag": tag}, {"sortText": st, "expected_group": g}, files=files)
             break
     ctx.nontrivial((klass, tag, len(must) > 0, len(may) > 0, min(len(got), 6),
